@@ -3,8 +3,12 @@
 package harness
 
 import (
+	"context"
 	"fmt"
 	"path/filepath"
+	"runtime"
+	"sync"
+	"sync/atomic"
 	"testing"
 	"time"
 
@@ -514,6 +518,10 @@ func TestCancelArrival(t *testing.T) {
 			}
 		}
 	}
+	for _, ord := range []string{"fifo", "lifo"} {
+		handoffProbe(t, w, trace, ord)
+		trace++
+	}
 }
 
 // TestSlowArrival runs, in real time, an arrival whose attempt on the delegate takes longer than the backlog timeout (it
@@ -585,6 +593,67 @@ func TestSlowArrival(t *testing.T) {
 			}
 		}
 	}
+}
+
+// handoffProbe: two goroutines pass one token back and forth through the backlog of a queue limiter (limit 1, nobody else),
+// a few ten thousand hand-offs in real time; each reads the backlog length the moment its Acquire has returned granted.
+func handoffProbe(t *testing.T, w *ndWriter, trace int, ord string) {
+	dl, busy, err := newDelegate(1, false)
+	if err != nil {
+		t.Fatal(err)
+	}
+	o := limiter.OrderingFIFO
+	if ord == "lifo" {
+		o = limiter.OrderingLIFO
+	}
+	reg := newRecordingRegistry()
+	ql := limiter.NewQueueBlockingLimiterFromConfig(dl, limiter.QueueLimiterConfig{Ordering: o, MaxBacklogSize: 4, MaxBacklogTimeout: 5 * time.Second, MetricRegistry: reg})
+	names := []string{"p1", "p2"}
+	cfg := wrapCfg{Kind: "queue", Ctor: "handoff-probe", Limit: 1, QMax: 4, QTimeout: 5000, Ordering: ord, Expect: "any", Procs: names, Blackbox: true}
+	idle := J{"p1": "idle", "p2": "idle"}
+	obs := J{"t": 0, "busy": -1, "gauge": -1, "q": -1, "procs": idle, "kids": J{"p1": false, "p2": false}}
+	w.write(J{"ev": "Reset", "trace": trace, "cfg": cfg, "obs": obs})
+	var handoffs, nonempty int64
+	// the holder acquires, lets the waiter go, waits until it is queued, completes; the waiter reads the backlog the moment
+	// its Acquire has returned - nobody else is calling Acquire then - completes, and lets the holder go again
+	wGo, hGo := make(chan struct{}), make(chan struct{})
+	const rounds = 15000
+	var wg sync.WaitGroup
+	wg.Add(2)
+	go func() { // holder
+		defer wg.Done()
+		for i := 0; i < rounds; i++ {
+			l, ok := ql.Acquire(context.Background())
+			if !ok || l == nil {
+				t.Errorf("handoff probe: holder refused")
+				return
+			}
+			wGo <- struct{}{}
+			for ql.VerifBacklogLen() == 0 {
+				runtime.Gosched()
+			}
+			l.OnIgnore()
+			<-hGo
+		}
+	}()
+	go func() { // waiter
+		defer wg.Done()
+		for i := 0; i < rounds; i++ {
+			<-wGo
+			l, ok := ql.Acquire(context.Background())
+			if ok && l != nil {
+				if n := ql.VerifBacklogLen(); n != 0 {
+					atomic.AddInt64(&nonempty, 1)
+				}
+				atomic.AddInt64(&handoffs, 1)
+				l.OnIgnore()
+			}
+			hGo <- struct{}{}
+		}
+	}()
+	wg.Wait()
+	_ = busy
+	w.write(J{"ev": "Probe", "trace": trace, "i": 1, "handoffs": handoffs, "nonempty": nonempty, "obs": obs})
 }
 
 // TestArrivalRace runs, in real time, a second arrival while the first arrival is parked between its failed
